@@ -67,6 +67,25 @@ def build_sites(objs, rng):
         return apply
 
     definers = {o["name"]: o for o in objs if o["kind"] in ("enum", "flag")}
+    # replacement names for the unknown-type rule: a name that exists nowhere, a name that exists only in the OTHER protocol family
+    # (login <-> world), and a name that exists only for world versions the user does not have — the diagnostic must be the rule's in every case
+    typed = [x for x in objs if x["kind"] in ("enum", "flag", "struct")]
+    names_login = sorted({x["name"] for x in typed if x["login"]} - {x["name"] for x in typed if x["world"]})
+    names_world = sorted({x["name"] for x in typed if x["world"]} - {x["name"] for x in typed if x["login"]})
+
+    def replacements(o):
+        out = [("nowhere", "NoSuchTypeXyz")]
+        if o["world"] and names_login:
+            out.append(("other-family", names_login[len(o["name"]) % len(names_login)]))
+        if o["login"] and names_world:
+            out.append(("other-family", names_world[len(o["name"]) % len(names_world)]))
+        if o["world"]:
+            mine = [v for v in o["world"]]
+            others = sorted({x["name"] for x in typed if x["world"] and not x["login"] and not any(wowm.world_overlaps(a, b) for a in x["world"] for b in mine)}
+                            - {x["name"] for x in typed if x["world"] and any(wowm.world_overlaps(a, b) for a in x["world"] for b in mine)})
+            if others:
+                out.append(("other-version", others[len(o["name"]) % len(others)]))
+        return out
     for o in gen_objs:
         tagk = "paste" if o.get("pasted") else ("tag_all" if not any(k in ("versions", "login_versions", "paste_versions") for k, _ in o["tags"]) else "own")
         for m, depth, ctx in all_members(o["members"]):
@@ -75,7 +94,8 @@ def build_sites(objs, rng):
                 tn = m["ty"]["name"]
                 if tn in definers or tn in by_name:
                     # unknown type
-                    sites["COMPLEX_NOT_FOUND"].append(Site("COMPLEX_NOT_FOUND", o["file"], line_edit(o["file"], m["line"], lambda s, tn=tn: re.sub(r"\b" + tn + r"\b", "NoSuchTypeXyz", s, count=1)), where))
+                    for rk, rn in replacements(o):
+                        sites["COMPLEX_NOT_FOUND"].append(Site("COMPLEX_NOT_FOUND", o["file"], line_edit(o["file"], m["line"], lambda s, tn=tn, rn=rn: re.sub(r"\b" + tn + r"\b", rn, s, count=1)), where + f" replaced-by {rk}-{'x' * len(rk)}"))
                 if tn in definers and not m["ty"].get("upcast") and definers[tn]["kind"] == "enum" and definers[tn]["ty"] in ("u8", "u16"):
                     same = definers[tn]["ty"]
                     sites["TYPE_IS_UPCAST_TO_SAME"].append(Site("TYPE_IS_UPCAST_TO_SAME", o["file"], line_edit(o["file"], m["line"], lambda s, tn=tn, same=same: re.sub(r"\b" + tn + r"\b", f"({same}){tn}", s, count=1)), where))
@@ -197,7 +217,7 @@ def run(tier, seed):
                     continue
                 seen_ctx.add(ctx)
                 picked.append(cands[i])
-                if len(picked) >= per_rule:
+                if len(picked) >= (max(per_rule, 5) if rule == "COMPLEX_NOT_FOUND" else per_rule):
                     break
             for s in picked:
                 g.resync()
